@@ -166,6 +166,9 @@ type instance struct {
 	// wild: arbitrary arguments; whether it fails or what it returns is not
 	// predicted, only that the server survives it
 	wild bool
+	// inBackend > 0: a computation of this instance is waiting in a hanging
+	// backend call; nothing can be expected of it until it is cancelled
+	inBackend int
 }
 
 type logEvent struct {
@@ -534,6 +537,15 @@ func connBody(c *runner.Ctx) {
 	}
 	w.latency = c.Choose(2, "latency-on") == 1
 	w.hang = h.faulty && c.Choose(3, "slow-backend") == 1
+	w.onBlocked = func(inst int, blocked bool) {
+		if inst >= 0 && inst < len(h.instances) {
+			if blocked {
+				h.instances[inst].inBackend++
+			} else {
+				h.instances[inst].inBackend--
+			}
+		}
+	}
 	var modeDesc []string
 	for _, f := range computedFields {
 		m := fieldMode{mode: c.Choose(5, "mode")}
@@ -771,6 +783,12 @@ func connBody(c *runner.Ctx) {
 			c.ViolateFor("C15,C02", "connection-dead", "the connection did not answer an echo at quiescence (got %d replies)", h.echoes["final-echo"])
 		}
 		for _, in := range h.instances {
+			if in.inBackend > 0 {
+				// its computation is still waiting in a hanging backend call: it has
+				// neither succeeded nor reported a failure yet
+				c.Probe("instance-waiting-in-a-hanging-backend-call-at-quiescence")
+				continue
+			}
 			if in.accepted && in.failedBeforeFirst && !in.gotFirst && in.errorEnvs == 0 && !in.failedHard && !in.clientUnsub && !h.writeFailed {
 				c.ViolateFor("C16", "initial-failure-not-reported", "the first computation of instance %d (id %s) failed with an ordinary error but the client got neither an update nor an error envelope", in.inst, in.id)
 			}
